@@ -259,6 +259,26 @@ def run_case(case):
         pos, op = m
         kind = "ins" if op.startswith("ins") else "del" if op.startswith("del") else "mnp" if len(op) > 3 else "snp"
         got = s0.coverage.coverage(Mutation(pos, op))
+        if got != c * u and kind in ("ins", "del") and "multi-allelic-record" in labels:
+            # recorded finding KF-VCFSHIFT: an insertion / deletion allele of a multi-allelic record that also holds an allele of
+            # another length is spelled with trailing shared bases; aldy strips shared LEADING bases only, so in a repeat the variant
+            # lands at an equivalent position further right than the database's (left-aligned) placement and supports nothing
+            # catalogued.  Matched only if the evidence table holds exactly the expected number of observations of an indel of the same
+            # kind nearby that denotes the SAME haplotype as the catalogued variant (both applied to the reference sequence)
+            from lib import refseq as _rs
+
+            lo_, hi_ = pos - 40, pos + 80
+            w = "".join(sim.genome[lo_:hi_])
+            try:
+                want_h = _rs.apply_genome(w, pos - lo_, op)
+                eq = [k for k, n in tab.items() if k != (pos, op) and k[1][:3] == op[:3] and abs(k[0] - pos) <= 30 and n == c * u
+                      and _rs.apply_genome(w, k[0] - lo_, k[1]) == want_h]
+            except Exception:  # noqa
+                eq = []
+            if eq:
+                viol.append(V("KF-VCFSHIFT:indel-of-multi-allelic-record-placed-at-an-equivalent-position-in-a-repeat", variant=f"{pos}.{op}",
+                              placed=f"{eq[0][0]}.{eq[0][1]}", gene=case.get("gene", "generated")))
+                continue
         if got != c * u:
             viol.append(V(f"variant-support:{kind}" + (":one-record" if kind == "mnp" and style == "mnp_one" else ""),
                           variant=f"{pos}.{op}", copies=c, want=c * u, got=got,
